@@ -13,6 +13,7 @@ def main(argv=None):
     ap.add_argument('--workers', type=int, default=None)
     ap.add_argument('--replay')
     ap.add_argument('--quiet', action='store_true')
+    ap.add_argument('--only')
     a = ap.parse_args(argv)
     from . import runner
     if a.replay:
